@@ -1,6 +1,7 @@
 (* C02 - rule verdicts equal the documented meaning of their conditions:
    property theorems only.  Each is closed by [exact] of a lemma proved in
    Cond/*Proofs.v; the statements are pinned here. *)
+From Coq Require Import Permutation.
 From Coq Require Import List ZArith Bool String.
 From YV Require Import Cond.Syntax Cond.Sem Cond.Rename Cond.RuleSet Cond.Prec
   Cond.SemProofs Cond.RuleSetProofs Cond.PrecProofs Cond.Quirks Cond.QuirksProofs
@@ -106,16 +107,14 @@ Proof.
 Qed.
 Print Assumptions for_range_laws.
 
-(* refuted on the faithful model (and on the implementation, replayed by the
-   harness on every run): the result of `N of (<boolean>, ..)` does not depend
-   on the order of the items.  An undefined item aborts the statement when it
-   is reached. *)
-Theorem of_tuple_order_refuted :
-  exists en a b,
-    eval en (EOfB QExpr (EInt 1) (ECons a (ECons b ENil))) = VBool true /\
-    eval en (EOfB QExpr (EInt 1) (ECons b (ECons a ENil))) = VUndef.
-Proof. exact SemProofs.of_tuple_order_refuted. Qed.
-Print Assumptions of_tuple_order_refuted.
+(* `Q of (<boolean>, ..)` for Q = none | any | all | <expr> | <expr>%: the verdict
+   is the same for every permutation of the items (repaired by commit 99b031b0;
+   before, an undefined item ended the statement when it was reached) *)
+Theorem of_tuple_order_independent : forall en qk q es es',
+  Permutation (exprs_list es) (exprs_list es') ->
+  eval en (EOfB qk q es) = eval en (EOfB qk q es').
+Proof. exact SemProofs.of_tuple_order_independent. Qed.
+Print Assumptions of_tuple_order_independent.
 
 (* the value of a condition does not depend on how its patterns are numbered *)
 Theorem id_renaming_invariance : forall f e en en',
